@@ -1,9 +1,183 @@
-(* C06 — Refresh, recovery and redistribution never change the key.  Property theorems only;
-   proofs are in proofs/Redist_proofs.v, the models in model/Zero.v and model/Redist.v. *)
+(* C06 — Refresh, recovery and redistribution never change the key.
+   Property theorems only; proofs are in proofs/Redist_proofs.v, the executable models in
+   model/Zero.v (abstract linear sharing, HJKY zero sharing as coded) and model/Redist.v
+   (the three redistribution rounds as coded, the history machine of epochs).
+
+   Reading guide.  K is an arbitrary field ([flaws K]); a [sharing] gives every holder a
+   list of rows (every MSP the library induces is one); the share of holder i in a dealing
+   with column c is rows(i)·c; group elements are represented by their exponents, so the
+   verification vector of a dealing is its column and [verify] is feldman.Scheme.Verify.
+   [solve] is the MSP solver as an ORACLE: the model uses an answer only after checking
+   Σ lam·rows = e₀ ([reconstructs_b]), so the theorems hold for EVERY oracle.
+   [good K w s] (proofs/Redist_proofs.v): the current sharing is well formed, the world's
+   verification vector has its length, its first entry and the recorded public key are s,
+   and every holder's stored share is rows(i)·(verification vector).
+   [redist_run K solve w ns a = Some w'] : the honest step with the environment data [a]
+   (driving quorum, anchor, zero sharing, the scalars read from the tapes) was performed by
+   all parties (every check of Round2 of HJKY and of Round3 passed); [None] = refused. *)
 From Coq Require Import List NArith ZArith Bool.
 Import ListNotations.
 Require Import V.base.Fld V.model.Zero V.model.Redist V.proofs.Redist_proofs.
 
-Theorem C06_placeholder : forall {F} (K : fops F), flaws K -> forall a b : vec, veqb K a b = true <-> a = b.
-Proof. exact (@veqb_eq). Qed.
-Print Assumptions C06_placeholder.
+(* One step, as coded: the new summed column has first entry s; the new vector's first entry
+   is the old public key; every new share is rows(i)·(new vector) and verifies; every set that
+   reconstructs in the NEXT sharing obtains s. *)
+Theorem C06_redist_step_preserves :
+  forall (F : Type) (K : fops F), flaws K ->
+  forall (solve : sharing -> list N -> option coefs) (w : world) (ns : sharing) (a : step_args) (w' : world) (s : F),
+  good K w s -> redist_run K solve w ns a = Some w' ->
+  w_sh w' = ns /\ hd0 K (w_vv w') = s /\ w_pk w' = w_pk w /\
+  (forall i, In i (holders ns) ->
+     share_in w' i = share_of K ns (w_vv w') i /\ verify K ns i (share_in w' i) (w_vv w') = true) /\
+  (forall (S : list N) (lam : coefs), reconstructs_b K ns S lam = true -> recon K S lam (share_in w') = s).
+Proof. exact (@redist_step_preserves). Qed.
+Print Assumptions C06_redist_step_preserves.
+
+(* After ANY finite history of {refresh, recover i, redistribute to any sharing/holders with or
+   without anchor, sign} — performed or refused steps alike — starting from the trusted
+   dealer's dealing of [secret]: the public key is the original one, the verification vector
+   commits to [secret], every current share verifies, and every set that reconstructs in the
+   CURRENT sharing reconstructs [secret] (whatever coefficients it uses). *)
+Theorem C06_history_invariant :
+  forall (F : Type) (K : fops F), flaws K ->
+  forall (solve : sharing -> list N -> option coefs) (sh : sharing) (secret : F) (rnd : vec) (w0 : world) (ops : list op),
+  genesis K sh secret rnd = Some w0 ->
+  let w := run_history K solve w0 ops in
+  w_pk w = w_pk w0 /\ hd0 K (w_vv w) = secret /\
+  (forall i, In i (holders (w_sh w)) -> verify K (w_sh w) i (share_in w i) (w_vv w) = true) /\
+  (forall (S : list N) (lam : coefs), reconstructs_b K (w_sh w) S lam = true -> recon K S lam (share_in w) = secret) /\
+  (forall (S : list N) (v : F), reconstruct K solve w S = Some v -> v = secret).
+Proof. exact (@history_invariant). Qed.
+Print Assumptions C06_history_invariant.
+
+(* ... and the shares after any history are exactly a dealing rows(i)·c of the current sharing
+   (so C02's privacy theorem for unqualified sets applies to the current sharing verbatim). *)
+Theorem C06_history_is_dealing :
+  forall (F : Type) (K : fops F), flaws K ->
+  forall (solve : sharing -> list N -> option coefs) (ops : list op) (w : world) (s : F),
+  good K w s -> good K (run_history K solve w ops) s.
+Proof. exact (@history_good). Qed.
+Print Assumptions C06_history_is_dealing.
+
+(* HJKY as coded: the summed zero column Z has first entry 0; every party that accepts holds
+   (rows(i)·Z, Z); zero shares reconstruct 0; adding a zero share changes every share by
+   rows(i)·Z and leaves what any reconstructing set obtains unchanged. *)
+Theorem C06_zero_sum :
+  forall (F : Type) (K : fops F), flaws K ->
+  forall (zs : sharing) (rnds : list (N * vec)) (zc : zcols),
+  wf_sharing_b zs = true -> NoDup (map fst rnds) -> hjky_cols K zs rnds = Some zc ->
+  let Z := vsum K (sh_dim zs) (map snd zc) in
+  hd0 K Z = f0 K /\ length Z = sh_dim zs /\
+  (forall (i : N) (sh : list F) (vv : vec), hjky_party K zs zc i = Ok (sh, vv) -> vv = Z /\ sh = share_of K zs Z i) /\
+  (forall (S : list N) (lam : coefs), reconstructs_b K zs S lam = true -> recon K S lam (share_of K zs Z) = f0 K) /\
+  (forall (c : list F) (i : N), length c = sh_dim zs ->
+     share_of K zs (vadd K c Z) i = vadd K (share_of K zs c i) (share_of K zs Z i)) /\
+  (forall (c : list F) (S : list N) (lam : coefs), length c = sh_dim zs -> reconstructs_b K zs S lam = true ->
+     recon K S lam (share_of K zs (vadd K c Z)) = hd0 K c).
+Proof. exact (@zero_sum). Qed.
+Print Assumptions C06_zero_sum.
+
+(* HJKY Round2 against ARBITRARY received messages: whatever is accepted verifies and has
+   first entry = identity; the aggregated vector commits to zero and the aggregated share
+   verifies against it (a vector whose first entry is not the identity is rejected). *)
+Theorem C06_hjky_accept_sound :
+  forall (F : Type) (K : fops F), flaws K ->
+  forall (zs : sharing) (i : N) (own : list F) (inbox : list zmsg) (s : list F) (v : vec),
+  wf_sharing_b zs = true -> In i (holders zs) -> length own = sh_dim zs -> hd0 K own = f0 K ->
+  hjky_round2 K zs i own inbox = Ok (s, v) ->
+  Forall (fun m : zmsg => verify K zs i (snd (snd m)) (fst (snd m)) = true /\ hd0 K (fst (snd m)) = f0 K) inbox /\
+  hd0 K v = f0 K /\ verify K zs i s v = true.
+Proof. exact (@hjky_round2_accept_sound). Qed.
+Print Assumptions C06_hjky_accept_sound.
+
+(* Round3 against ARBITRARY received messages: an accepted shard verifies against its vector and
+   its public key equals the first entry of every broadcast previous vector (old pk = new pk). *)
+Theorem C06_round3_accept_sound :
+  forall (F : Type) (K : fops F), flaws K ->
+  forall (solve : sharing -> list N -> option coefs) (own_t : option trusted) (own : option (list F * vec))
+         (anchor : N) (zs ns : sharing) (Q : list N) (i : N) (inbox : list r2msg) (share : list F) (vv : vec),
+  round3 K solve own_t own anchor zs ns Q i inbox = Ok (share, vv) ->
+  verify K ns i share vv = true /\ (forall m : r2msg, In m inbox -> hd0 K (b_prevvv (m_b m)) = hd0 K vv).
+Proof. exact (@round3_accept_sound). Qed.
+Print Assumptions C06_round3_accept_sound.
+
+(* Mixed epochs, exactly: a set A++B that reconstructs through lam in the common sharing and
+   holds A's shares of epoch wa and B's shares of epoch wb obtains
+       s + <mu_B, c_b> - <mu_B, c_a>,   mu_B = Σ_{i∈B} lam_i·rows_i,  c_a, c_b the epochs' columns, *)
+Theorem C06_mixed_epochs_value :
+  forall (F : Type) (K : fops F), flaws K ->
+  forall (wa wb : world) (s : F) (A B : list N) (lam : coefs),
+  good K wa s -> good K wb s -> w_sh wb = w_sh wa ->
+  reconstructs_b K (w_sh wa) (A ++ B) lam = true ->
+  mixed_recon K wa wb A B lam =
+  fadd K s (fsub K (dot K (comb K (w_sh wa) B lam) (w_vv wb)) (dot K (comb K (w_sh wa) B lam) (w_vv wa))).
+Proof. exact (@mixed_epochs_value). Qed.
+Print Assumptions C06_mixed_epochs_value.
+
+(* ... hence it obtains the secret exactly on the linear coincidence
+       <tl mu_B, tl c_b> = <tl mu_B, tl c_a>
+   between the FRESH coefficients of the two epochs (the column entries after the secret). *)
+Theorem C06_mixed_epochs :
+  forall (F : Type) (K : fops F), flaws K ->
+  forall (wa wb : world) (s : F) (A B : list N) (lam : coefs),
+  good K wa s -> good K wb s -> w_sh wb = w_sh wa ->
+  reconstructs_b K (w_sh wa) (A ++ B) lam = true ->
+  (mixed_recon K wa wb A B lam = s <->
+   dot K (tl (comb K (w_sh wa) B lam)) (tl (w_vv wb)) = dot K (tl (comb K (w_sh wa) B lam)) (tl (w_vv wa))).
+Proof. exact (@mixed_epochs). Qed.
+Print Assumptions C06_mixed_epochs.
+
+(* The coincidence is a genuine condition unless nothing is combined across the epochs: if the
+   coefficient vector tl mu_B vanishes then B's part and A's part are both multiples of the
+   target vector (whichever is non-zero reconstructs on its own, from one epoch); *)
+Theorem C06_mixed_degenerate :
+  forall (F : Type) (K : fops F), flaws K ->
+  forall (sh : sharing) (A B : list N) (lam : coefs),
+  wf_sharing_b sh = true -> reconstructs_b K sh (A ++ B) lam = true ->
+  tl (comb K sh B lam) = vzero K (sh_dim sh - 1) ->
+  exists t : F, comb K sh B lam = vscale K t (e0 K (sh_dim sh)) /\
+                comb K sh A lam = vscale K (fsub K (f1 K) t) (e0 K (sh_dim sh)).
+Proof. exact (@mixed_degenerate). Qed.
+Print Assumptions C06_mixed_degenerate.
+
+(* and a non-zero coefficient m pins the corresponding fresh entry x to exactly one value
+   (one value out of |K| for a uniformly drawn fresh coefficient). *)
+Theorem C06_coincidence_unique :
+  forall (F : Type) (K : fops F), flaws K ->
+  forall m r t : F, m <> f0 K -> forall x : F, fadd K (fmul K m x) r = t <-> x = fmul K (fsub K t r) (finv K m).
+Proof. exact (@coincidence_unique). Qed.
+Print Assumptions C06_coincidence_unique.
+
+(* Non-vacuity over Z_7 (2-of-3 Shamir on {1,2,3}; refresh by {1,2} with anchor, redistribution to
+   {2,3,4} without anchor, recovery of holder 4's share with anchor, an observation): every step
+   is performed by the model, i.e. the hypotheses [genesis = Some] and [redist_run = Some] of the
+   theorems above are met by a non-trivial history; *)
+Example C06_history_nonvacuous :
+  match Ex7.w0 with
+  | Some w => forallb fst (trace_history Ex7.K7 Ex7.solve7 w Ex7.ops) = true /\
+              length (trace_history Ex7.K7 Ex7.solve7 w Ex7.ops) = 4%nat
+  | None => False
+  end.
+Proof. exact Ex7.ex_history_performed. Qed.
+
+(* a mixed set ({1} from the first epoch, {2} from the refreshed one) meets the hypotheses of
+   C06_mixed_epochs and does not obtain the secret, while the refreshed epoch alone does; *)
+Example C06_mixed_nonvacuous :
+  match Ex7.w0 with
+  | Some w =>
+      let w1 := epoch_step Ex7.K7 Ex7.solve7 w (Refresh Ex7.a1) in
+      w_sh w1 = w_sh w /\ reconstructs_b Ex7.K7 (w_sh w) ([1%N] ++ [2%N]) Ex7.lam12 = true /\
+      feqb Ex7.K7 (mixed_recon Ex7.K7 w w1 [1%N] [2%N] Ex7.lam12) (Ex7.z 3) = false /\
+      feqb Ex7.K7 (recon Ex7.K7 [1%N; 2%N] Ex7.lam12 (share_in w1)) (Ex7.z 3) = true
+  | None => False
+  end.
+Proof. exact Ex7.ex_mixed. Qed.
+
+(* an honest HJKY run is accepted. *)
+Example C06_zero_nonvacuous :
+  match hjky_cols Ex7.K7 Ex7.zs12 (sa_rnd1 Ex7.a1) with
+  | Some zc => (match hjky_party Ex7.K7 Ex7.zs12 zc 1%N with Ok _ => true | _ => false end) = true /\
+               wf_sharing_b Ex7.zs12 = true
+  | None => False
+  end.
+Proof. exact Ex7.ex_zero. Qed.
